@@ -61,3 +61,14 @@ package core
 //@   ensures [fresh-interval] a != nil && n != 0 ==> err == nil && last == old(a.next.v) + n && first == old(a.next.v) + 1 && a.next.v == last && first > old(a.next.v) && first <= last
 //@   ensures [rejected-unchanged] a != nil && n == 0 ==> err != nil && a.next.v == old(a.next.v)
 //@   modifies a.next.v
+
+// Route lookup. Proved: GetRegionByKey reports success only if the key lies inside the
+// bounds of the index entry it selected (start <= key < end, an empty end is unbounded).
+// The index is a derived structure (rebuildRegionIndexLocked copies every region's id and
+// bounds after each accepted heartbeat/removal); that every entry equals its region's
+// bounds, sortedness, and sort.Search's least-index result - i.e. that the lookup FINDS
+// the region whenever one contains the key - are not under contract.
+//@ func (*Cluster).GetRegionByKey
+//@   property C26
+//@   ensures [found-not-before-start] result1 ==> bcmp(key, entry.start) >= 0
+//@   ensures [found-before-end] result1 ==> len(entry.end) == 0 || bcmp(key, entry.end) < 0
